@@ -73,7 +73,7 @@ func DecodeString(encoding, code string) (string, error) {
 		}
 		return string(decoded), nil
 	case "", "none":
-		return encoding, nil
+		return code, nil
 	default:
 		return "", fmt.Errorf("unsupported encoding '%s'", encoding)
 	}
